@@ -31,7 +31,7 @@ import (
 )
 
 const rule = "documents: a mutated (or arbitrary) text that is valid JSON, unmarshals into eip712.TypedData and therefore reaches EncodeTypedDataV4; " +
-	"integers: a value with |v| >= 2^53 (in or out of the range of its type); distinct by hash of the case"
+	"integers: a value with |v| >= 2^53 (in or out of the range of its type); histories: damaged documents decoded into / edited in one re-used TypedData, or an integer slot given a value with |v| >= 2^53; distinct by hash of the case"
 
 func init() {
 	logrus.SetOutput(io.Discard)
@@ -1356,13 +1356,15 @@ func TestCheck(t *testing.T) {
 	rec.Assume("totality is judged on json.Unmarshal into eip712.TypedData + EncodeTypedDataV4 + SignTypedDataV4 (KeyPair signer), each under recover()")
 	rec.Assume("reference: ref/eip712ref.FromJSON, three-valued. Where it says well-formed the library must return that digest; where it says a value cannot have its declared type (non-object for a struct, non-array for an array, wrong element count for a fixed array, integer outside its type's range) the library must return an error; everywhere else (undefined/odd types, odd spellings, lenient byte lengths, duplicate or case-variant keys, fractions/exponents) only totality is asserted")
 	rec.Assume("integers: decimal-string and 0x-hex-string spellings must be accepted with the reference digest; the JSON-number spelling (plain, or with fraction/exponent denoting exactly the integer) must be rejected or give that digest; out of range is rejected in every spelling. Non-integral numbers, leading zeros, 0b/0o, '_' and sign-prefixed hex are not asserted")
+	rec.Assume("histories (kind history): one or two TypedData variables are decoded into again and again (with and without clearing them; encoding/json merges into the existing maps) and edited in place (integer slots given other spellings / values / out-of-range values, the slot's type changed, values deleted or replaced by junk); every hash is judged by the content of the variable at that moment, rendered to JSON: no panic, reference digest where well-formed, error where a value cannot have its declared type, and the same verdict as a new TypedData with that content")
+	rec.Assume("tiny-docs: name (odd struct names: brackets, array suffixes, separators of encodeType, blank, non-ASCII, names of atomic / ABI-only types, EIP712Domain variants) x shape of its definition (null, [null], [{}], null members before/after, self references, …) x use (primaryType, member type, element type, member of EIP712Domain, EIP712Domain itself) x value is enumerated (quick tier: a third of the values); the mutation generator gives one document in five oddly named struct types used consistently as key, primaryType and member type before the other mutations are applied")
 	kDoc := evid.NewKind(rec, "doc", judgeDoc).DeclareEach()
 	kInt := evid.NewKind(rec, "int", judgeInt)
 	kHist := evid.NewKind(rec, "history", judgeHistory).DeclareEach()
 	// the same judges from several goroutines at once (documents the library hashes, the heaviest kept)
-	pDoc := evid.NewPool(rec, "concurrent-doc", judgeDocPure, 64)
-	pInt := evid.NewPool(rec, "concurrent-int", judgeInt, 64)
-	pHist := evid.NewPool(rec, "concurrent-history", judgeHistory, 32)
+	pDoc := tdgen.NewHeavyPool(rec, "concurrent-doc", judgeDocPure, 64)
+	pInt := tdgen.NewHeavyPool(rec, "concurrent-int", judgeInt, 64)
+	pHist := tdgen.NewHeavyPool(rec, "concurrent-history", judgeHistory, 32)
 	rec.Corpus(t)
 
 	// bounded exhaustive: every integer type x boundary values x positions (all spellings inside the judge)
@@ -1459,9 +1461,9 @@ func TestCheck(t *testing.T) {
 		})
 	})
 
-	pDoc.Run(t, 8, 3, 16)
-	pInt.Run(t, 8, 3, 16)
-	pHist.Run(t, 8, 2, 8)
+	pDoc.Run(t, "concurrent-doc", 8, 3, 16)
+	pInt.Run(t, "concurrent-int", 8, 3, 16)
+	pHist.Run(t, "concurrent-history", 8, 2, 8)
 }
 
 func TestReplay(t *testing.T) {
@@ -1469,9 +1471,9 @@ func TestReplay(t *testing.T) {
 	evid.NewKind(rec, "doc", judgeDoc).DeclareEach()
 	evid.NewKind(rec, "int", judgeInt)
 	evid.NewKind(rec, "history", judgeHistory).DeclareEach()
-	evid.NewPool(rec, "concurrent-doc", judgeDocPure, 0)
-	evid.NewPool(rec, "concurrent-int", judgeInt, 0)
-	evid.NewPool(rec, "concurrent-history", judgeHistory, 0)
+	tdgen.NewHeavyPool(rec, "concurrent-doc", judgeDocPure, 0)
+	tdgen.NewHeavyPool(rec, "concurrent-int", judgeInt, 0)
+	tdgen.NewHeavyPool(rec, "concurrent-history", judgeHistory, 0)
 	rec.Replay(t)
 }
 
@@ -1484,6 +1486,7 @@ var fuzzSeeds = []string{
 	`{"types":{},"primaryType":"EIP712Domain"}`,
 	`{"types":{"T":[{"name":"v","type":"uint64"}]},"primaryType":"T","message":{"v":18446744073709551615}}`,
 	`{"types":{"T":[{"name":"v","type":"int8[1]"}]},"primaryType":"T","message":{"v":[1e2]}}`,
+	`{"types":{"Foo[x":[{"name":"a","type":"Foo[x"},{"name":"b","type":"uint256[2]"},{"name":"c","type":"a b"}],"a b":[{"name":"x","type":"Foo[x[]"}],"uint8":[{"name":"","type":"uint8"}]},"primaryType":"Foo[x","message":{"a":null,"b":[1,"2"],"c":{"x":[]}}}`,
 }
 
 // FuzzTypedData feeds raw bytes to the same oracle as kind "doc".
